@@ -85,7 +85,14 @@ pub fn truth_offsets(m: &StreamModel, body_recs: &[Rec], pre_end: usize) -> BTre
         starts.push(off);
         off += r.wire_len();
     }
-    m.end_rec.iter().map(|(&s, &i)| (s, starts[i] + 8)).collect()
+    // The end of a stream cannot be known before the record that ends it has been "reached": at
+    // least the four header bytes that identify it (version, type, request id) must have been fed
+    // - for the stream's own empty terminator also its content length (6 bytes). Whether a parser
+    // waits for the complete 8-byte header is its choice.
+    m.end_rec
+        .iter()
+        .map(|(&s, &i)| (s, starts[i] + if body_recs[i].ty == s { 6 } else { 4 }))
+        .collect()
 }
 
 /// Obtains a stream parser positioned right after the preamble. Returns (parser, wire position).
